@@ -44,6 +44,8 @@ def run(ctx):
     ctx.do(rule_no_hidden_state, "C18.history-independence")
     from .pitfalls import rule_loops_not_cut_short
     ctx.do(rule_loops_not_cut_short, "C18.loops-complete")
+    from .pitfalls import rule_definite_assignment
+    ctx.do(rule_definite_assignment, "C18.definite-assignment")
 
 
 def rule_member_forward(ctx, rule_id="C18.member-forward"):
